@@ -71,7 +71,7 @@ def corpus(prop):
     refactors = sorted(glob.glob(os.path.join(VERIF, "neutral", "*.diff")))
     # small commits that change behaviour without touching any property (new optional parameter, extra accepted spelling, other
     # exception text, finer grid ...): every check must stay silent on them too
-    refactors += sorted(glob.glob(os.path.join(VERIF, "feature", "small", "*.diff"))) + sorted(glob.glob(os.path.join(VERIF, "feature", "small2", "*.diff"))) + sorted(glob.glob(os.path.join(VERIF, "feature", "small3", "*.diff")))
+    refactors += sorted(glob.glob(os.path.join(VERIF, "feature", "small", "*.diff"))) + sorted(glob.glob(os.path.join(VERIF, "feature", "small2", "*.diff"))) + sorted(glob.glob(os.path.join(VERIF, "feature", "small3", "*.diff"))) + sorted(glob.glob(os.path.join(VERIF, "feature", "small4", "*.diff")))
     seeded = []
     for d in sorted(glob.glob(os.path.join(VERIF, "seeded", "*", "meta.json"))):
         try:
